@@ -46,6 +46,7 @@ class Context:
         self.fact_paths = {}
         self._facts = {}
         self.fact_hash = {}
+        self.default_cfg = SUPERSET
 
     # ---------------------------------------------------------------- facts
     def prepare(self, configs=None):
@@ -74,7 +75,8 @@ class Context:
         self.fact_paths[cfg] = out
         return out
 
-    def facts(self, cfg=SUPERSET):
+    def facts(self, cfg=None):
+        cfg = cfg or self.default_cfg
         if cfg not in self._facts:
             p = self.build_facts(cfg)
             f = Facts(p)
@@ -90,10 +92,11 @@ class Context:
             shutil.rmtree(self.tmp, ignore_errors=True)
 
     # ---------------------------------------------------------------- E-AI
-    def ai_entries(self, cfg=SUPERSET, select=None, jobs=None):
+    def ai_entries(self, cfg=None, select=None, jobs=None):
         """Analyse every public entry (or those accepted by `select`) in
         parallel.  Results are cached by (facts hash, engine hash, entry)."""
         from .harness import entries_of
+        cfg = cfg or self.default_cfg
         facts = self.facts(cfg)
         ents = [e for e in entries_of(facts) if select is None or select(e)]
         cdir = os.path.join(ROOT, ".cache", "ai", "%s-%s" % (self.fact_hash[cfg], _engine_hash()))
